@@ -207,7 +207,16 @@ func execNsec(f []string) vlib.Res {
 		}
 		return vlib.Res{Impl: idxList(curRRs, kept), Oracle: or, Tags: "nt"}
 	case "nxd", "nod":
+		// the call sequence of Resolver.authority: ValidateSigner(signer, qname),
+		// FilterRRsToZone(.., signer), then the validator.
 		signer, q, t := parseName(f[2]), parseName(f[3]), uint16(atoi(f[4]))
+		if dnssec.ValidateSigner(signer.pres(), q.pres()) != nil {
+			or := "ok"
+			if q.fold().under(signer.fold()) {
+				or = "FAIL sig=signer/in-zone-name-refused"
+			}
+			return vlib.Res{Impl: "notsigner", Oracle: or}
+		}
 		set := dnsutil.FilterRRsToZone(curRRs, signer.pres())
 		var err error
 		entry := "nameerror"
